@@ -1,5 +1,6 @@
 (** Pinned statements of the C15 property theorems: compiled on every check, so a theorem cannot be
     weakened silently. *)
+From Coq Require Import Sorting.Permutation.
 From V Require Import Base.Util Gql.Ast C15.Model C15.Spec C15.Corr C15.Properties.
 
 Check (C15_routes_agree : forall st meta M D,
@@ -63,6 +64,14 @@ Print Assumptions C15_schema_equiv_b_sound.
 Check (C15_doc_equiv_b_sound : forall D D0, doc_equiv_b D D0 = true -> doc_equiv D D0).
 Print Assumptions C15_doc_equiv_b_sound.
 Check (C15_certified_case : forall st meta M D J out_sdl out_json,
-  agree (CRoutes false true st meta M D J out_sdl out_json) = true ->
+  agree (CRoutes false true st meta [] M D J out_sdl out_json) = true ->
   exists Sj, out_json = Ok Sj /\ schema_equiv_on (vis_of M) Sj out_sdl).
 Print Assumptions C15_certified_case.
+Check (C15_routes_agree_any_order : forall st meta M D types,
+  model_ok M = true ->
+  Permutation types (listed_types meta M) ->
+  nodup_str (map mt_name types) = true ->
+  doc_equiv D (sdl_doc M) ->
+  parsed_positions D ->
+  exists Sj, json_route (introspect_of st types M) = Ok Sj /\ schema_equiv_on (vis_of M) Sj (ast_to_type_system D)).
+Print Assumptions C15_routes_agree_any_order.
